@@ -204,7 +204,17 @@ type vC11World struct {
 	Pending   map[uint64][]vC11Rep
 	NMsgs     map[uint64]int
 	Senders   map[uint64]int
+	// values the validators must accept from anybody (not part of the Coq input: the model ignores them)
+	FeedAns  map[string]*big.Int // USD feed answer per token: regular / 0 / negative / huge
+	FqVal    *big.Int            // fee-quoter token update value: regular / huge
+	UpdZero  map[uint64]bool     // chains whose fee update carries a timestamp but the value 0 (the reader drops it: as if absent)
+	UpdVal   *big.Int            // value of the non-empty fee updates: regular / huge
+	MsgFee   *big.Int            // FeeValueJuels of every readable message: regular / 0 / nil
+	MsgData  []byte              // Data of every readable message: nil / zero-length / some bytes
+	NonceVal uint64              // inbound nonce of every sender: 3 / 0 / max
 }
+
+var vC11Huge = new(big.Int).Lsh(big.NewInt(1), 200)
 
 func (w *vC11World) fails(kind int, ch uint64) bool { return w.Fail[[2]uint64{uint64(kind), ch}] }
 
@@ -261,6 +271,24 @@ func vC11GenWorld(r *vRand, c *vC11Cfg, failMode int) *vC11World {
 		}
 	}
 	w.Tokens = []string{"0x0A", "0x0B"}[:r.Range(0, 2)]
+	// value classes: half of the worlds are regular throughout, the others draw every value from its boundary classes
+	odd := r.Bool()
+	w.FeedAns = map[string]*big.Int{}
+	for i, t := range []string{"0x0A", "0x0B"} {
+		w.FeedAns[t] = big.NewInt(int64(100 + i))
+		if odd {
+			w.FeedAns[t] = vPick(r, []*big.Int{big.NewInt(int64(100 + i)), big.NewInt(0), big.NewInt(-7), vC11Huge, big.NewInt(1)})
+		}
+	}
+	w.FqVal, w.UpdVal, w.MsgFee, w.NonceVal = big.NewInt(9), big.NewInt(77), new(big.Int).Exp(big.NewInt(10), big.NewInt(30), nil), 3
+	w.UpdZero = map[uint64]bool{}
+	if odd {
+		w.FqVal = vPick(r, []*big.Int{big.NewInt(9), big.NewInt(1), vC11Huge})
+		w.UpdVal = vPick(r, []*big.Int{big.NewInt(77), big.NewInt(1), vC11Huge})
+		w.MsgFee = vPick(r, []*big.Int{w.MsgFee, big.NewInt(0), nil, vC11Huge})
+		w.MsgData = vPick(r, [][]byte{nil, {}, {1, 2, 3}})
+		w.NonceVal = vPick(r, []uint64{3, 0, ^uint64(0)})
+	}
 	for _, t := range w.Tokens {
 		if r.Bool() {
 			w.Fq = append(w.Fq, t)
@@ -269,12 +297,30 @@ func vC11GenWorld(r *vRand, c *vC11Cfg, failMode int) *vC11World {
 	for _, ch := range c.Chains {
 		if !r.Chance(1, 8) {
 			w.Comp[ch] = [2]*big.Int{big.NewInt(int64(r.Range(1, 9))), big.NewInt(int64(r.Range(0, 3)))}
+			// the execute harness keeps the destination's values small: the costly-message observer prices every message
+			// with them, and the model's "no message is flagged" rests on the execution cost rounding to 0
+			small := !vC11FullRanges && ch == c.Dest
+			if odd && !small && r.Chance(1, 3) {
+				w.Comp[ch] = [2]*big.Int{vPick(r, []*big.Int{big.NewInt(1), vC11Huge}), vPick(r, []*big.Int{big.NewInt(0), vC11Huge})}
+			}
+			if odd && r.Chance(1, 14) {
+				// values validation rejects from anybody (outside values_ok: judged for model/implementation agreement only)
+				w.Comp[ch] = vPick(r, [][2]*big.Int{{big.NewInt(0), big.NewInt(1)}, {nil, big.NewInt(1)}, {big.NewInt(2), nil}, {big.NewInt(-1), big.NewInt(0)}, {big.NewInt(2), big.NewInt(-1)}})
+			}
 		}
 		if !r.Chance(1, 6) {
 			w.Native[ch] = int64(r.Range(1, 50))
+			if odd && !(!vC11FullRanges && ch == c.Dest) && r.Chance(1, 4) {
+				w.Native[ch] = 1 << 60
+			}
+			if odd && r.Chance(1, 14) {
+				w.Native[ch] = 0 // a stored price of 0 with a timestamp: observed as it is, rejected by validation (outside values_ok)
+			}
 		}
 		if ch != c.Dest && r.Chance(2, 3) {
 			w.Upd[ch] = true
+		} else if odd && r.Chance(1, 2) {
+			w.UpdZero[ch] = true
 		}
 	}
 	root := byte(1)
@@ -533,10 +579,13 @@ func (r *vC11CR) GetLatestValue(ctx context.Context, readIdentifier string, conf
 		if w.fails(vC11KFeeUpd, s) {
 			return vErr
 		}
+		if w.UpdZero[s] {
+			return vC11JSON(ret, `{"timestamp":1700000000,"value":0}`)
+		}
 		if !w.Upd[s] {
 			return vC11JSON(ret, `{"timestamp":0,"value":0}`)
 		}
-		return vC11JSON(ret, `{"timestamp":1700000000,"value":77}`)
+		return vC11JSON(ret, fmt.Sprintf(`{"timestamp":1700000000,"value":%s}`, w.UpdVal.String()))
 	case "FeeQuoter." + consts.MethodNameGetDestChainConfig:
 		return vC11JSON(ret, `{"IsEnabled":false}`)
 	case "NonceManager." + consts.MethodNameGetInboundNonce:
@@ -544,7 +593,7 @@ func (r *vC11CR) GetLatestValue(ctx context.Context, readIdentifier string, conf
 		if w.fails(vC11KNonces, s) {
 			return vErr
 		}
-		return vC11JSON(ret, "3")
+		return vC11JSON(ret, strconv.FormatUint(w.NonceVal, 10))
 	}
 	panic("verif fake reader: unscripted read " + name + "." + method)
 }
@@ -614,7 +663,8 @@ func (r *vC11CR) QueryKey(ctx context.Context, contract cctypes.BoundContract, f
 				Header: cciptypes.RampMessageHeader{MessageID: cciptypes.Bytes32{byte(r.chain), byte(seq)}, SourceChainSelector: cciptypes.ChainSelector(r.chain),
 					DestChainSelector: cciptypes.ChainSelector(d), SequenceNumber: cciptypes.SeqNum(seq)},
 				Sender:         []byte{byte(seq % 2)},
-				FeeValueJuels:  cciptypes.NewBigInt(new(big.Int).Exp(big.NewInt(10), big.NewInt(30), nil)),
+				Data:           w.MsgData,
+				FeeValueJuels:  cciptypes.BigInt{Int: w.MsgFee},
 				FeeTokenAmount: cciptypes.NewBigIntFromInt64(1),
 			}
 			v := newData()
@@ -667,8 +717,9 @@ func (p *vC11PR) GetFeedPricesUSD(ctx context.Context, tokens []cciptypes.Unknow
 	if p.w.fails(vC11KFeed, p.w.C.Feed) {
 		return nil, vErr
 	}
-	for i := range tokens {
-		prices[i] = big.NewInt(int64(100 + i))
+	for i, t := range tokens {
+		// the real price reader passes the aggregator's answer on, whatever its sign
+		prices[i] = new(big.Int).Set(p.w.FeedAns[string(t)])
 	}
 	return prices, nil
 }
@@ -681,7 +732,7 @@ func (p *vC11PR) GetFeeQuoterTokenUpdates(ctx context.Context, tokens []cciptype
 		return nil, vErr
 	}
 	for _, t := range p.w.Fq {
-		out[cciptypes.UnknownEncodedAddress(t)] = plugintypes.TimestampedBig{Timestamp: time.Unix(1700000000, 0).UTC(), Value: cciptypes.NewBigIntFromInt64(9)}
+		out[cciptypes.UnknownEncodedAddress(t)] = plugintypes.TimestampedBig{Timestamp: time.Unix(1700000000, 0).UTC(), Value: cciptypes.BigInt{Int: new(big.Int).Set(p.w.FqVal)}}
 	}
 	return out, nil
 }
@@ -919,7 +970,8 @@ func vC11ExecRunWorld(t *testing.T, ctx context.Context, sink *vSink, sinkName s
 		}
 		show := map[string]any{"oracles": c.Oracles, "readers": c.Readers, "dest": c.Dest, "observer": o,
 			"phase": phase, "init": w.Init, "failing_calls": w.FailList, "status": status, "panic": panicMsg, "error": errMsg,
-			"pending": w.Pending, "reports": w.Reports, "observation": string(obsB), "verdicts": verdicts}
+			"pending": w.Pending, "reports": w.Reports, "observation": string(obsB), "verdicts": verdicts,
+			"message_fee": fmt.Sprint(w.MsgFee), "message_data": fmt.Sprint(w.MsgData), "nonce_value": w.NonceVal, "fee_components": fmt.Sprint(w.Comp), "native_prices": fmt.Sprint(w.Native)}
 		for kk, v := range extra {
 			show[kk] = v
 		}
